@@ -92,6 +92,11 @@ _add(_c("w_cdn_orth_sl_g2", "CDN", [2, 2], [3, 3, 3, 3, 3, 3], 2, "cdn", dict(or
 C11_WALLS_QUICK = ["w_lsn_nonorth_sl", "w_lsn_nonorth_sl_acw_g2", "w_lsn_nonorth_many_g0", "w_usn_nonorth_sl", "w_lsn_orth_many_acw"]
 C11_WALLS = C11_WALLS_QUICK + ["w_cdn_nonorth_sl", "w_cdn_orth_sl_g2"]
 
+# ---- weak poloidal field (psi of order 1e-2 Wb: dR/dpsi large far from the X-point): C04, seeded change C04_clip_direction
+_add(_c("lsn_orth_weak", "LSN", [2, 2], [3, 4, 3], 1, "lsn", dict(orthogonal=True, xpoint_refine_atol=1e-14), fpol="quad", psi_scale=0.01))
+_add(_c("cdn_orth_weak", "CDN", [2, 2], [3, 3, 3, 3, 3, 3], 1, "cdn", dict(orthogonal=True, xpoint_refine_atol=1e-14, **DN), fpol="quad", psi_scale=0.01))
+C04_EXTRA = ["lsn_orth_weak", "cdn_orth_weak"]
+
 # ---- C07: the x-y-derivative form of the curvature on orthogonal grids, at two resolutions
 XY = {"curvature_type": "curl(b/B) with x-y derivatives"}
 _add(_c("lsn_orth_xy", "LSN", [2, 2], [3, 4, 3], 1, "lsn", dict(orthogonal=True, **XY), fpol="quad", pressure="quad", wall="slanted"))
@@ -139,7 +144,7 @@ _add(_c("lsn_orth_n50", "LSN", [2, 2], [3, 4, 3], 1, "lsn", dict(orthogonal=True
 _add(_c("lsn_orth_n200", "LSN", [2, 2], [3, 4, 3], 1, "lsn", dict(orthogonal=True, finecontour_Nfine=200), fpol="quad", pressure="quad", wall="slanted"))
 
 EXTENDED_CAMPAIGN = CORE_CAMPAIGN + ["usn_nonorth", "cdn_nonorth", "ldn_nonorth", "lsn_orth_dct", "lsn_orth_g0", "lsn_orth_lop",
-                                     "cdn_orth_uo", "ldn_orth_uo", "core_nonorth", "lim_orth_g2", "lsn_orth_wide", "lsn_orth_n50", "lsn_orth_n200"]
+                                     "cdn_orth_uo", "ldn_orth_uo", "core_nonorth", "lim_orth_g2", "lsn_orth_wide", "lsn_orth_n50", "lsn_orth_n200", "lsn_orth_weak"]
 
 
 def campaign(tier):
